@@ -675,7 +675,13 @@ The ISLa command line interface.""",
 
 
 def read_files(files: Iterable[TextIOWrapper]) -> Dict[str, str]:
-    return {io_wrapper.name: io_wrapper.read() for io_wrapper in files}
+    result: Dict[str, str] = {}
+    for io_wrapper in files:
+        # No newline translation: "\r\n" or "\r" may be part of an input.
+        io_wrapper.reconfigure(newline="")
+        result[io_wrapper.name] = io_wrapper.read()
+
+    return result
 
 
 def ensure_grammar_present(
